@@ -37,6 +37,26 @@ def listing(recipe):
     return [R.to_int(x) for x in R.build(recipe, False)]
 
 
+class Machinery(Exception):
+    """the check's own machinery cannot run as designed (not a statement about dateutil)"""
+
+
+def safe_listing(recipe, verdict, what):
+    """listing of the UNCACHED rule; a failure here is reported (non-concrete), never a crash"""
+    try:
+        with R.watchdog(120):
+            return listing(recipe)
+    except R.Timeout:
+        verdict.violation({"kind": "listing the uncached rule did not finish within 120 s (%s)" % what,
+                           "input": {"mode": "history", "recipe": recipe, "ops": [["list"]], "history": [[2, 0]]}},
+                          concrete=False)
+    except Exception as ex:
+        verdict.violation({"kind": "listing the uncached rule raised %s (%s)" % (type(ex).__name__, what),
+                           "input": {"mode": "history", "recipe": recipe, "ops": [["list"]], "history": [[2, 0]]}},
+                          concrete=False)
+    return None
+
+
 def prog_args(L, ops, flags=1):
     a = [flags, len(L)] + L + [len(ops)]
     for op in ops:
@@ -215,7 +235,11 @@ def check_histories(o, tier, r, verdict, stats, samples, t_end):
             continue
         n = len(L)
         if n_expected is not None and n != n_expected:
-            raise AssertionError("recipe length %d != %d" % (n, n_expected))
+            verdict.violation({"kind": "machinery: the recipe meant to list %d occurrences lists %d (rule generation "
+                                       "changed); this rule is skipped" % (n_expected, n),
+                               "input": {"mode": "history", "recipe": recipe, "ops": [["list"]], "history": [[2, 0]]}},
+                              concrete=False)
+            continue
         memo = {}
         cases = histories(n, L, r, tier)
         reqs = []
@@ -224,12 +248,12 @@ def check_histories(o, tier, r, verdict, stats, samples, t_end):
         model = R.call_many(o, reqs)
         for (ops, h, fam), mod in zip(cases, model):
             try:
-                with R.watchdog(10):
+                with R.watchdog(60):
                     got = run_history(recipe, ops, h)
                     want = spec_history(L, recipe, ops, h, memo)
             except R.Timeout:
                 stats["hist_impl_vs_spec"] += 1
-                verdict.violation({"kind": "operation never completes (no answer within 10 s) in a single-threaded history",
+                verdict.violation({"kind": "operation never completes (no answer within 60 s) in a single-threaded history",
                                    "input": {"mode": "history", "recipe": recipe, "ops": ops, "history": h}})
                 stats["timeouts"] = stats.get("timeouts", 0) + 1
                 if stats["timeouts"] >= 3:
@@ -272,21 +296,53 @@ def raising_recipes():
     return [{"kind": "rrule", "kw": {"freq": rr.MINUTELY, "dtstart": t, "interval": 1440, "byhour": [1], "count": 3}},
             {"kind": "rrule", "kw": {"freq": rr.MINUTELY, "dtstart": t, "interval": 2880, "byhour": [7, 9]}},
             {"kind": "rrule", "kw": {"freq": rr.SECONDLY, "dtstart": t, "interval": 3600, "byminute": [5], "count": 12}},
-            {"kind": "rrule", "kw": {"freq": rr.SECONDLY, "dtstart": t, "interval": 86400, "byhour": [5]}}]
+            {"kind": "rrule", "kw": {"freq": rr.SECONDLY, "dtstart": t, "interval": 86400, "byhour": [5]}},
+            # generators raising ANOTHER class: a set mixing naive and aware instants -> TypeError in sort / heap
+            {"kind": "rruleset", "rdates": [R.T0, R.T0 + R.DAY], "aware_rdates": [R.T0 + 3600]},
+            {"kind": "rruleset", "rrules": [{"freq": rr.DAILY, "count": 3, "dtstart": R.T0}], "aware_rdates": [R.T0 + 5]}]
 
 
 def matcher_raising_generator(payload):
-    """F-C11-raise: the rule cannot be listed at all -- list(uncached rule) raises ValueError"""
+    """F-C11-raise: the rule cannot be listed at all -- list(uncached rule) raises (any exception class:
+    ValueError of impossible rules, TypeError of sets mixing naive and aware instants, ...)"""
     inp = payload.get("input") or {}
     if inp.get("mode") != "raising" or not str(payload.get("kind", "")).startswith("cached rule whose generator raises"):
         return False
     try:
         list(R.build(inp["recipe"], False))
-    except ValueError:
-        return True
     except Exception:
+        pass
+    else:
         return False
-    return False
+    # ... and the cached observation must be exactly what the transition system with raises = true predicts
+    # (so an unrelated defect on such a rule, e.g. a deadlock, is NOT absorbed)
+    pred = payload.get("model_raises_true")
+    if pred is not None:
+        return payload.get("impl_classes") == pred
+    return payload.get("trace_validated_with_raises_true") is True
+
+
+def gen_class_code(recipe):
+    """enc_exn code of the class the rule's own generator raises (2 TypeError, 3 ValueError), from the uncached rule"""
+    try:
+        list(R.build(recipe, False))
+    except TypeError:
+        return 2
+    except ValueError:
+        return 3
+    except Exception:
+        return None
+    return None
+
+
+def map_gen_class(obs, gcode):
+    """the model calls the generator's exception EValueError (code 3) whatever its class; rename it to the class
+    the implementation's generator really raises (these rules yield no value, so `2, 3` is always a marker)"""
+    out = list(obs)
+    for k in range(len(out) - 1):
+        if out[k] == 2 and out[k + 1] == 3:
+            out[k + 1] = gcode
+    return out
 
 
 def check_raising(o, verdict, stats, samples):
@@ -300,14 +356,17 @@ def check_raising(o, verdict, stats, samples):
         for h in hists:
             cached = run_history(recipe, ops, h, cache=True)
             uncached = run_history(recipe, ops, h, cache=False)
-            model = o.call(10, prog_args([], ops, 3) + [x for kt in h for x in kt])
+            gcode = gen_class_code(recipe)
+            model = map_gen_class(o.call(10, prog_args([], ops, 3) + [x for kt in h for x in kt]), gcode)
             stats["raising_histories"] += 1
+            stats["raising_by_class"][str(gcode)] = stats["raising_by_class"].get(str(gcode), 0) + 1
             inp = {"mode": "raising", "recipe": recipe, "ops": ops, "history": h}
             cached_n = [(-1 if x is None else x) for x in cached]
             if cached != uncached:
                 stats["raising_cached_vs_uncached"] += 1
                 verdict.violation({"kind": "cached rule whose generator raises is observed differently from the uncached rule",
-                                   "input": inp, "impl": cached, "uncached_spec": uncached, "model_raises_true": model})
+                                   "input": inp, "impl": cached, "impl_classes": cached_n, "uncached_spec": uncached,
+                                   "model_raises_true": model})
             if cached_n != model:
                 stats["raising_impl_vs_model"] += 1
                 verdict.violation({"kind": "correspondence: transition system with a raising generator differs from implementation",
@@ -408,7 +467,10 @@ def thread_cases(tier, r):
     for _ in range(n3):
         n = r.choice([0, 1, 2, 5, 9, 10, 11, 19, 20, 21, 30, r.randint(0, 31)])
         rec = R.daily(n) if r.random() < 0.5 else r.choice(R.variants_of_length(n))
-        L = listing(rec)
+        try:
+            L = listing(rec)
+        except Exception:
+            continue        # reported by check_threads when the case is run
         nt = r.randint(2, 4)
         pool = query_ops(L, r)
         ops = [["list"]] + [r.choice(pool) if r.random() < 0.6 else ["list"] for _ in range(nt - 1)]
@@ -431,8 +493,10 @@ def check_threads(o, tier, r, verdict, stats, samples, t_end):
             break
         key = json.dumps(recipe, sort_keys=True)
         if key not in memoL:
-            memoL[key] = listing(recipe)
+            memoL[key] = safe_listing(recipe, verdict, "thread case")
         L = memoL[key]
+        if L is None:
+            continue
         try:
             one_thread_case(o, recipe, L, ops, plan, fam, verdict, stats, samples, r)
         except (IndexError, TypeError, ValueError, RuntimeError) as ex:
@@ -456,6 +520,8 @@ def one_thread_case(o, recipe, L, ops, plan, fam, verdict, stats, samples, r=Non
     inp = {"mode": "raising" if raises else "threads", "recipe": recipe, "ops": ops, "plan": plan,
            "executed_schedule": run.schedule}
     concrete = False
+    ok, detail, finals = validate_trace(o, L, ops, run, 3 if raises else 1)
+    gcode = gen_class_code(recipe) if raises else None
     if run.problem or run.leaked:
         concrete = True
         stats["thread_problems"] += 1
@@ -465,19 +531,22 @@ def one_thread_case(o, recipe, L, ops, plan, fam, verdict, stats, samples, r=Non
         want = [expected(recipe, op) for op in ops]
         if run.results != want and raises:
             stats["raising_cached_vs_uncached"] += 1
+            modres_r = [map_gen_class(f[1], gcode) if f[1] else f[1] for f in finals] if ok else None
             concrete = verdict.violation({"kind": "cached rule whose generator raises is observed differently from "
                                                   "the uncached rule under a thread schedule",
-                                          "input": inp, "impl": run.results, "uncached_spec": want})
+                                          "input": inp, "impl": run.results, "uncached_spec": want,
+                                          "trace_validated_with_raises_true":
+                                              bool(ok and modres_r == [([(-1 if x is None else x) for x in res] if res else res)
+                                                                       for res in run.results])})
         elif run.results != want:
             concrete = True
             stats["thread_impl_vs_spec"] += 1
             verdict.violation({"kind": "cached rule observed differently from the uncached rule under a thread schedule",
                                "input": inp, "impl": run.results, "uncached_spec": want})
-    ok, detail, finals = validate_trace(o, L, ops, run, 3 if raises else 1)
     if ok:
         stats["traces_validated"] += 1
         if not concrete:
-            modres = [f[1] for f in finals]
+            modres = [map_gen_class(f[1], gcode) if (raises and f[1]) else f[1] for f in finals]
             if modres != [([(-1 if x is None else x) for x in res] if res else res) for res in run.results] \
                     or not detail["all_done"]:
                 stats["thread_impl_vs_model"] += 1
@@ -526,7 +595,11 @@ def invalidate_witness():
         s2.rdate(R.to_dt(R.T0 + k * R.DAY))
     list(s2)
     s2.rdate(R.to_dt(R.T0 + 10 * R.DAY))
-    clean = [R.to_int(x) for x in s2] == [R.T0, R.T0 + R.DAY, R.T0 + 2 * R.DAY, R.T0 + 10 * R.DAY]
+    # C11_invalidate_then_iterate on the real code: every operation finished, mutator, NEW operations: they answer
+    # for the new sequence (listing, count() through the re-published _len, an index through the new cache)
+    new_seq = [R.T0, R.T0 + R.DAY, R.T0 + 2 * R.DAY, R.T0 + 10 * R.DAY]
+    clean = ([R.to_int(x) for x in s2] == new_seq and s2.count() == 4 and R.to_int(s2[-1]) == new_seq[-1] and
+             [R.to_int(x) for x in s2] == new_seq)
     return {"first": R.to_int(first), "live_iterator_after_mutator": out, "no_live_iterator_lists_new_sequence": clean}
 
 
@@ -540,7 +613,9 @@ def run_regressions(o, verdict, stats, samples):
             if not line:
                 continue
             c = json.loads(line)
-            L = listing(c["recipe"])
+            L = safe_listing(c["recipe"], verdict, "regression corpus")
+            if L is None:
+                continue
             if c["mode"] == "threads":
                 one_thread_case(o, c["recipe"], L, c["ops"], c["plan"], "regression", verdict, stats, samples)
             else:
@@ -639,10 +714,18 @@ def main():
     stats = {"histories": 0, "hist_family": {}, "hist_len": {}, "hist_impl_vs_spec": 0, "hist_impl_vs_model": 0,
              "schedules": 0, "sched_family": {}, "steps": 0, "blocked_steps": 0, "thread_problems": 0,
              "thread_impl_vs_spec": 0, "thread_impl_vs_model": 0, "traces_validated": 0, "traces_rejected": 0,
-             "ops_hist": {}, "ops_hist_threads": {}, "invalidate_witness": None, "raising_histories": 0, "raising_cached_vs_uncached": 0, "raising_impl_vs_model": 0,
+             "ops_hist": {}, "ops_hist_threads": {}, "invalidate_witness": None, "raising_histories": 0,
+             "raising_by_class": {}, "raising_cached_vs_uncached": 0, "raising_impl_vs_model": 0,
              "nontrivial": set()}
     samples = []
-    if os.path.exists(os.path.join(C.BIN, "oracle_" + AREA)):
+    have_oracle = os.path.exists(os.path.join(C.BIN, "oracle_" + AREA))
+    if sys.version_info[:2] != (3, 12):
+        # the program-counter table (one pc per `line` event of _iter_cached) was established for CPython 3.12
+        verdict.violation({"kind": "machinery: the line-level scheduler's pc table is bound to the `line` events of "
+                                   "CPython 3.12; this interpreter is %d.%d -- thread traces are not comparable"
+                                   % sys.version_info[:2], "input": None}, concrete=False)
+        have_oracle = False
+    if have_oracle:
         o = C.Oracle(AREA)
         # regression corpus first
         try:
@@ -686,18 +769,36 @@ def main():
                            "translator": translator, "theorem_file": "coq/props/C11.v",
                            "theorems": props["theorems"], "discharged": props["discharged"],
                            "input": None, "log_tail": props["log"][-3000:]}, concrete=False)
+    # (audit) a loaded machine must not pass silently with far fewer cases: export the truncation flags, and
+    # report when a whole stream did not run at all
+    trunc = {"histories_stopped_by_time_budget": bool(stats.get("histories_stopped_by_time_budget")),
+             "threads_stopped_by_time_budget": bool(stats.get("threads_stopped_by_time_budget")),
+             "threads_stopped_after_repeated_hangs_or_deadlocks":
+                 bool(stats.get("threads_stopped_after_repeated_hangs_or_deadlocks")),
+             "histories": stats["histories"], "schedules": stats["schedules"],
+             "floor_histories": 2000 if tier == "quick" else 20000, "floor_schedules": 300 if tier == "quick" else 5000}
+    trunc["truncated"] = bool(trunc["histories_stopped_by_time_budget"] or trunc["threads_stopped_by_time_budget"])
+    trunc["below_floor"] = bool(stats["histories"] < trunc["floor_histories"] or stats["schedules"] < trunc["floor_schedules"])
+    if have_oracle and (stats["histories"] == 0 or stats["schedules"] == 0) and not verdict.violations:
+        verdict.violation({"kind": "stream truncated: %d histories, %d thread schedules were run (time budget used up "
+                                   "before the stream started: machine overloaded?)" % (stats["histories"], stats["schedules"]),
+                           "input": None, "truncation": trunc}, concrete=False)
     rc = verdict.finish()
     nontriv = len(stats.pop("nontrivial"))
     cov = {
         "evaluations": stats["histories"] + stats["schedules"],
         "distinct_nontrivial": nontriv,
-        "rule": "(i) single-threaded histories over cached rrule(DAILY,count=n) n=0..31 and rrulesets of length "
-                "{0,1,9,10,11,20,21,30}: all interleavings of next() of 2 iterators for n<=3 (quick) / 4 and of 3 "
-                "iterators for n<=1, phase families a^p b^q a* b* with p,q around multiples of 10 and the second "
-                "iterator created before/after, strict alternation, random histories of 2-4 lazily created iterators "
+        "truncation": trunc,
+        "rule": "(i) single-threaded histories over cached rrule(DAILY,count=n) n=0..31 and rules/sets of length "
+                "{0,1,9,10,11,20,21,30} leaving the generator through every exit: all interleavings of next() of 2 "
+                "iterators for n<=3 (quick) / 4 and of 3 iterators for n<=1, phase families a^p b^q a* b* with p,q "
+                "around multiples of 10 and the second iterator created before/after, strict alternation, random "
+                "histories of 2-4 lazily created iterators "
                 "mixed with list/take/index/negative index/slice [:k]/count/contains/between/before/after/xafter queries; (ii) real threads under the "
-                "line-level scheduler: 2 threads with one pre-emption at every line offset, two pre-emptions on a complete (a,b) grid for the shortest rules and sampled "
-                "for lengths {0,1,9,10,11,20,21}, random plans for 2-4 threads mixing iterators and queries. distinct = (rule, ops, history or executed "
+                "line-level scheduler: ONE pre-emption at every line offset is enumerated only for two `list` iterators over "
+                "rrule(DAILY,count=n), n in {0,1,10,11} (quick) / {0,1,9,10,11,20,21} (thorough); TWO pre-emptions on a "
+                "complete (a,b) grid only for n=0 with stride 4 (quick) / n=0 stride 1, n=1 stride 2, n=10 stride 7 "
+                "(thorough), otherwise sampled for lengths {0,1,9,10,11,20,21}; queries take part only in the random plans for 2-4 threads mixing iterators and queries. distinct = (rule, ops, history or executed "
                 "schedule); non-trivial = history with >=2 iterators advancing on a non-empty rule, or schedule with "
                 ">=2 context switches on a non-empty rule",
         "exhaustive": False,
@@ -717,14 +818,26 @@ def main():
         "thread_impl_vs_uncached_spec_disagreements": stats["thread_impl_vs_spec"],
         "thread_impl_vs_model_final_result_disagreements": stats["thread_impl_vs_model"],
         "raising_generator_histories": stats["raising_histories"],
+        "raising_generator_histories_by_exception_code (2 TypeError, 3 ValueError)": stats["raising_by_class"],
         "raising_generator_cached_vs_uncached_disagreements (finding F-C11-raise)": stats["raising_cached_vs_uncached"],
         "raising_generator_impl_vs_model_disagreements": stats["raising_impl_vs_model"],
         "invalidate_cache_boundary_witness_on_impl": stats.get("invalidate_witness"),
-        "guards": ["mutators (_invalidate_cache) are outside the transition system: C11_invalidate_without_live_iterators "
-                   "(safe when no operation is in flight) / C11_invalidate_live_iterator_refuted (F-C10-stale)",
+        "guards": ["mutators (_invalidate_cache) are the boundary between two runs of the transition system: "
+                   "C11_invalidate_then_iterate (any operations, all finished, mutator, any new operations under any "
+                   "schedule: invariant + answers for the NEW sequence) / C11_invalidate_live_iterator_refuted "
+                   "(F-C10-stale)",
                    "theorems are about generators that end normally (raises = false); the complement is "
                    "C11_raising_generator_refuted / known finding F-C11-raise"],
         "partial_theorems": [t for t in props["theorems"] if "partial" in t],
+        "tie_only": {
+            "C11_gen_init_is_model": "reflexivity on a regenerated constant",
+            "C11_gen_batch_is_model": "reflexivity on a regenerated constant (batch size 10 at line offset 13)",
+            "C11_gen_invalidate_is_model": "the regenerated assignments of _invalidate_cache equal the hand-written "
+                                           "reset (four fields), definitional after unfolding",
+            "C11_gen_table_is_model": "a checked syntactic fingerprint (24 instruction tags with jump targets); the "
+                                      "meaning of each tag is hand-written (RGenBase.exec_instr), so this is not an "
+                                      "independent semantics of the Python source",
+        },
         "outside_the_model": ["pre-emption inside a source line (bytecode level)", "free-threaded CPython",
                               "_invalidate_cache (rruleset mutators) racing with live iterators",
                               "rules whose generator raises (ValueError of impossible sub-daily rules)"],
